@@ -64,6 +64,36 @@ int main(int argc, char **argv) {
             quiet = 1;
         } else if (strcmp(argv[i], "--verbose") == 0) {
             verbose = 1;
+        } else if (strcmp(argv[i], "--dump") == 0 && i + 1 < argc) {
+            /* [u32 length][bytes]* as written by VF_DUMP_CASES */
+            FILE *d = fopen(argv[++i], "rb");
+            uint32_t n;
+            unsigned long idx = 0;
+            while (d && fread(&n, sizeof(n), 1, d) == 1) {
+                uint8_t *c = (uint8_t *)malloc(n ? n : 1);
+                if (n && fread(c, 1, n, d) != n) {
+                    free(c);
+                    break;
+                }
+                vf_report rep;
+                if (vf_run_case(c, n, &rep)) {
+                    printf("FAIL %s#%lu site=%s kind=%s :: %s\n  case: %s\n",
+                           argv[i], idx, rep.site, rep.kind, rep.detail,
+                           rep.desc);
+                    const char *fp = getenv("VF_FAIL");
+                    if (fp) {
+                        vf_save_case(fp, c, n);
+                    }
+                    rc |= 1;
+                    free(c);
+                    break;
+                }
+                free(c);
+                idx++;
+            }
+            if (d) {
+                fclose(d);
+            }
         } else if (strcmp(argv[i], "--list") == 0 && i + 1 < argc) {
             FILE *l = fopen(argv[++i], "r");
             char line[4096];
